@@ -406,3 +406,45 @@ def sampling(tier, rng, rep):
                     rep.fail("fixed_point_per_unit", f"loxodromic unit {idx}: the reported point is not fixed by the unit's matrix", inpl); return
         rep.attempt("fixed_point_runs", inpl, loxo)
         rep.case(key=(t, "fixlox"), nontrivial=True)
+
+
+@bounded(P, "horosphere_arcs_per_unit", functions=[HY + "HorosphereArc.circle_parameters", HY + "Horosphere.sphere_parameters", U + "circle_angles", U + "arc_include"],
+         note="circle parameters of a composite of horospherical arcs (shapes (k,), (2,2), (2,3), (1,)) against the unit arcs, both conformal models, radians and degrees; "
+              "and the semantic meaning of the angle pair: both endpoints lie at the reported angles and the arc between them avoids the ideal centre")
+def horosphere_arcs_per_unit(tier, rng, rep):
+    N = 150 if tier == 'thorough' else 30
+    rep.rule = "random ideal centres, random pairs of interior points (the arc runs between the projections of the points to the horosphere through the first); composite shapes (1,), (3,), (5,), (2,2), (2,3)"
+    rep.bound = f"{N} composites x 2 models x 2 units of angle"
+    for t in range(N):
+        shape = [(1,), (3,), (5,), (2, 2), (2, 3)][t % 5]
+        m = int(np.prod(shape))
+        units = []
+        for _ in range(m):
+            c = h.IdealPoint.from_angle(rng.uniform(0, 2 * np.pi))
+            pts = [h.Point(rng.uniform(-0.6, 0.6, size=2), model="klein") for _ in range(2)]
+            units.append(h.HorosphereArc(c, pts[0], pts[1]))
+        data = np.array([np.asarray(u.proj_data, dtype=float) for u in units])
+        comp = h.HorosphereArc(data.reshape(shape + data.shape[1:]))
+        for model in ("poincare", "halfspace"):
+            for deg in (False, True):
+                inp = {"shape": list(shape), "model": model, "degrees": deg, "proj_data": data.tolist()}
+
+                def body():
+                    with np.errstate(all='ignore'):
+                        C, R, T = comp.circle_parameters(model=model, degrees=deg)
+                    C, R, T = np.asarray(C, dtype=float), np.asarray(R, dtype=float), np.asarray(T, dtype=float)
+                    if C.shape != shape + (2,) or R.shape != shape or T.shape != shape + (2,):
+                        rep.fail("parameter_shapes", f"{C.shape}, {R.shape}, {T.shape}", inp); return
+                    for j, idx in enumerate(np.ndindex(*shape)):
+                        with np.errstate(all='ignore'):
+                            cj, rj, tj = units[j].circle_parameters(model=model, degrees=deg)
+                        cj, rj, tj = np.asarray(cj, dtype=float).reshape(2), float(np.asarray(rj).reshape(())), np.asarray(tj, dtype=float).reshape(2)
+                        if not (np.all(np.isfinite(cj)) and np.isfinite(rj) and rj < 1e4 and np.all(np.isfinite(tj))):
+                            continue            # horosphere centred at the half-plane's point at infinity
+                        sc = 1 + abs(rj)
+                        if not (np.all(np.abs(C[idx] - cj) <= 1e-9 * sc) and abs(R[idx] - rj) <= 1e-9 * sc and np.all(np.abs(T[idx] - tj) <= 1e-9 * (360 if deg else 7))):
+                            rep.fail("circle_parameters_per_unit", f"arc {idx}: composite angles {T[idx]} vs unit angles {tj}", {**inp, "index": list(idx)}); return
+                rep.attempt("circle_parameters_run", inp, body)
+                rep.case(key=(t, model, deg), nontrivial=m >= 2, sample=inp if (t, model, deg) == (1, "poincare", False) else None)
+                if len(rep.failures) >= 3:
+                    return
